@@ -388,12 +388,14 @@ def aggregate(chunks):
 PROBES = {
     'C20': ['view_created', 'view_of_view', 'chained_setitem', 'register_write', 'register_configured',
             'adopted_register', 'container_used', 'fault_F5_template_flip', 'fault_F6_container_mutated',
-            'fault_F1_injected', 'fault_F3_fired', 'fault_F4_fired', 'abandoned_dest'],
+            'fault_F1_injected', 'fault_F3_fired', 'fault_F4_fired', 'abandoned_dest',
+            'chained_setitem_root_checked', 'chained_setitem_through_0d_view', 'clip_bound_from_container',
+            'arith_operand_from_container', 'reentrant_write_repeated_without_interleaving'],
     'C02': ['sat_store_checked', 'sat_store_beyond_2_64', 'view_created', 'register_write',
             'fault_F3_fired', 'fault_F4_fired'],
     'C04': ['c04_write_judged', 'c04_callback_set_judged', 'c04_write_beyond_input_domain_judged', 'c04_arith_value_not_exact_not_judged', 'failed_write_dest_kept', 'probe_ovf_and_udf_in_one_write',
             'probe_flag_raising_write', 'probe_inaccuracy_propagated', 'probe_reset_of_raised_flag',
-            'register_write', 'fault_F3_fired', 'fault_F4_fired'],
+            'register_write', 'fault_F3_fired', 'fault_F4_fired', 'fault_F8_fired', 'c04_selfwrite_judged'],
     'C10': ['c10_hop_judged', 'c10_hop_inexact_or_out_of_range', 'c10_hop_all_codes_of_source_format', 'c10_hop_out_of_domain', 'c10_route_resize', 'c10_route_resize_dtype',
             'c10_route_like_kw', 'c10_route_like_method', 'c10_route_ctor_from', 'c10_route_set_from_call',
             'c10_route_set_from_set_val', 'c10_route_equal', 'c10_route_setitem_from',
